@@ -69,6 +69,14 @@ Definition plan_pacer (ops : nat) (interval : N) (l _a : Z) : list act * Z :=
 (* pipe.Throttling, data: for a = range in { select{<-ctl | Done}; select{out<-a | Done} } *)
 Definition plan_throttled (l a : Z) : list act * Z := ([ATok 1; ASend 0 a], l).
 
+(* pipe.Seq: out := make(chan T, len(xs)); for _, x := range xs { out <- x }; close(out)  - run by the caller itself,
+   so it is complete before anybody sees the channel; ToSeq is the consumer that receives until closed *)
+Definition plan_seq (xs : list Z) (l _a : Z) : list act * Z :=
+  match nth_error xs (Z.to_nat l) with
+  | Some v => ([APlain 0 v], l + 1)
+  | None => ([AStop], l)
+  end.
+
 Definition no_eof (l : Z) : list act := [].
 Definition always (l : Z) : bool := true.
 
